@@ -937,11 +937,13 @@ static Str opCread(const Toks& t)
 }
 
 // raw <s|p> <k> { <head-hex> <bodyspec> <framing> <cuts> P <plan> }*k <fin>   raw client -> real server
-//   s: one request at a time on the same connection (keep-alive), p: all requests sent back to back (pipelined)
+//   s: one request at a time on the same connection (keep-alive), p: all requests sent back to back (pipelined),
+//   d: like s with a peer that reads late
 static Str opRaw(const Toks& t)
 {
 	if (t.size() < 3) return "bad-op";
 	bool pipelined = t[1] == "p";
+	bool late = t[1] == "d"; // like s, but the peer starts reading each response 0.3 s after its request went out
 	int k = atoi(t[2].c_str());
 	size_t i = 3;
 	std::vector<Slot*> sls;
@@ -999,6 +1001,7 @@ static Str opRaw(const Toks& t)
 			{ Lock l(gmx); current = sls[j]; }
 			sendPieces(fd, streams[j], cuts[j]);
 			if (j + 1 == sls.size()) shutdown(fd, SHUT_WR);
+			if (late) usleep(300000);
 			Str msg;
 			bool got = rawReadResponse(fd, pending, msg, 1500);
 			out += (j ? " ; " : "") + obsOrDash(*sls[j]) + " " + wireStr(canonWire(msg, srv->thePort)) + (got ? "" : " short");
